@@ -5,7 +5,7 @@ CONSTANTS
   SigVs = {"good", "swap"}
   Pairs = "all"
   Fields = {"msg", "sig", "keys", "thr", "mask"}
-  MaxQ = 4
+  MaxQ = 3
   SidStages = {0, 6}
 INVARIANT CacheAgrees
 INVARIANT CacheSound
